@@ -616,12 +616,12 @@ func (ex *Exec) valEq(a, b Val) *Term {
 	case nil:
 		return ex.tf.Bool(b == nil)
 	}
-	if a == b {
-		return ex.tf.T
-	}
-	// distinct native objects
+	// native objects (pointers): identity
 	if _, ok := a.(NativeObj); ok {
-		return ex.tf.Bool(a == b)
+		if _, ok2 := b.(NativeObj); ok2 {
+			return ex.tf.Bool(a == b)
+		}
+		return ex.tf.F
 	}
 	ex.unmodelled(fmt.Sprintf("equality on %T", a))
 	return nil
